@@ -75,6 +75,7 @@ func New(count int, newf NewEntryF, ringID string) *Ring {
 // Returns the number of entries written, or -1 if the RingBuf is closed, and a
 // bool indicating if the write blocked.
 func (r *Ring) Write(entries EntryList, block bool) (int, bool) {
+	simYield(r, "write")
 	r.mutex.Lock()
 	defer r.mutex.Unlock()
 	var blocked bool
@@ -87,6 +88,7 @@ func (r *Ring) Write(entries EntryList, block bool) (int, bool) {
 		for r.writable == 0 && !r.closed {
 			blocked = true
 			r.writableC.Wait()
+			simYieldLocked(r, "write-woken")
 		}
 	}
 	if r.closed {
@@ -110,6 +112,7 @@ func (r *Ring) Write(entries EntryList, block bool) (int, bool) {
 // Returns the number of entries read, or -1 if the RingBuf is closed, and a
 // bool indicating if the read blocked.
 func (r *Ring) Read(entries EntryList, block bool) (int, bool) {
+	simYield(r, "read")
 	r.mutex.Lock()
 	defer r.mutex.Unlock()
 	var blocked bool
@@ -122,6 +125,7 @@ func (r *Ring) Read(entries EntryList, block bool) (int, bool) {
 		for r.readable == 0 && !r.closed {
 			blocked = true
 			r.readableC.Wait()
+			simYieldLocked(r, "read-woken")
 		}
 	}
 	if r.closed && r.readable == 0 {
@@ -142,6 +146,7 @@ func (r *Ring) Read(entries EntryList, block bool) (int, bool) {
 // Close closes the ring buffer, and causes all blocked readers/writers to be
 // notified.
 func (r *Ring) Close() {
+	simYield(r, "close")
 	r.mutex.Lock()
 	defer r.mutex.Unlock()
 	r.closed = true
